@@ -59,6 +59,11 @@ def verdict (st : St) (env : Spec.Env) (op : Spec.OpReq) (o : Obs) (twinKey : Op
       | .make _ => Spec.c08_register env o
       | .get _ => Spec.c08_assert env o
     (if ok then "ok" else "fail:signature-counter-not-previous-plus-one-or-not-what-the-store-holds", st.twins)
+  else if st.prop = "C11" then
+    let ok := match op with
+      | .make r => Spec.c11_make env r o
+      | .get _ => Spec.c11_get env o
+    (if ok then "ok" else "fail:user-handle-stored-or-returned-not-iff-discoverable-under-store-capability", st.twins)
   else ("na", st.twins)
 
 def step (st : St) (op : List String) (impl : String) : St × String :=
